@@ -105,15 +105,24 @@ theorem viewPackages (pl : Nat → PkgLayout) (pkgs : List Spec.Arsc.Package) (i
     simp only [packagesOf, List.map_cons, allSome, viewPackage_packageOf _ _ hw1, ih (i + 1) hw2]
     rfl
 
+theorem viewParsed_parsedOf (l : Layout) (t : Table) (hwf : wfTable l t = true) :
+    viewParsed (parsedOf l t) = some (viewTable t) := by
+  simp only [wfTable, Bool.and_eq_true, decide_eq_true_eq] at hwf
+  obtain ⟨⟨_, hstr⟩, hpk⟩ := hwf
+  simp only [viewParsed, parsedOf, poolStrings_poolOf _ _ hstr, viewPackages _ _ _ hpk,
+    Option.bind_eq_bind, Option.bind_some, Option.pure_def]
+  rfl
+
 /-- (5) the parse of an encoded table says exactly what the table says -/
 theorem viewParsed_enc (l : Layout) (t : Table) (hwf : wfTable l t = true) :
     (parseTable (encTable l t).toArray).bind viewParsed = some (viewTable t) := by
-  rw [parseTable_enc l t hwf]
-  simp only [wfTable, Bool.and_eq_true, decide_eq_true_eq] at hwf
-  obtain ⟨⟨_, hstr⟩, hpk⟩ := hwf
-  simp only [Option.bind_some, viewParsed, parsedOf, poolStrings_poolOf _ _ hstr, viewPackages _ _ _ hpk,
-    Option.bind_eq_bind, Option.pure_def]
-  rfl
+  rw [parseTable_enc l t hwf, Option.bind_some, viewParsed_parsedOf l t hwf]
+
+/-- the same with trailing bytes after the table chunk -/
+theorem viewParsed_enc_trailing (l : Layout) (t : Table) (tr : List Nat) (hwf : wfTable l t = true)
+    (htr : (encTable l t).length + tr.length < 4294967296) :
+    (parseTable (encTable l t ++ tr).toArray).bind viewParsed = some (viewTable t) := by
+  rw [parseTable_enc_trailing l t tr hwf htr, Option.bind_some, viewParsed_parsedOf l t hwf]
 
 /-- `get_packages_names()` on the parse of an encoded table -/
 theorem packagesNames_enc (l : Layout) (t : Table) :
